@@ -372,6 +372,45 @@ def task_scenarios(t):
             for v in vs:
                 v.case = {'scenario': ['storm']}
             out.extend(vs)
+        elif kind == 'fd-abuse':
+            # descriptor traffic first (so that message objects the bus recycles own descriptor arrays), then messages that
+            # announce more descriptors than are attached, fewer, or attach descriptors to a message that announces none
+            for rnd in range(3):
+                for announced, attached in ((1, 0), (2, 1), (0, 1), (1, 0)):
+                    vs = []
+                    desc = 'fd-abuse round %d announced=%d attached=%d' % (rnd, announced, attached)
+                    hcl = arena.new_hostile('registered')
+                    c = arena.slots[hcl]
+
+                    def fdmsg(n_announced, n_values):
+                        ser = arena.bus.next_serial(c)
+                        f = [(R.F_PATH, (b'o', b'/x')), (R.F_INTERFACE, (b's', b'x.y')), (R.F_MEMBER, (b's', b'Fd')), (R.F_DESTINATION, (b's', arena.uname['B']))]
+                        if n_announced:
+                            f.append((R.F_UNIX_FDS, (b'u', n_announced)))
+                        return R.encode_message(R.Msg(R.MT_CALL, 1, ser, f, [R.S('h')] + [R.H(k) for k in range(n_values)]))
+                    arena.send_raw(hcl, fdmsg(1, 1), fds=[0])            # well-formed: one announced, one attached
+                    arena.send_raw(hcl, fdmsg(announced, announced), fds=[0] * attached if attached else None)
+                    for l in ('A', 'B', 'M'):
+                        arena.take(l)
+                    if announced > attached and not arena.eof.get(hcl):
+                        vs.append(Violation('invalid-sender-kept', 'missing-unix-fds', '%s: a client whose message announces more descriptors than it attached was not disconnected' % desc, None))
+                    arena.round_trip(vs, desc)
+                    if arena.is_open(hcl):
+                        arena.close_slot(hcl)
+                    for l in ('A', 'B', 'M'):
+                        arena.take(l)
+                    if not vs:
+                        arena.round_trip(vs, desc + ' (after close)')
+                    for l in ('A', 'B', 'M'):
+                        arena.take(l)
+                    if not vs:
+                        arena.restored(vs, desc)
+                    n += 1
+                    for v in vs:
+                        v.case = {'scenario': ['fd-abuse']}
+                    out.extend(vs)
+                    if vs:
+                        arena = Arena()
         elif kind == 'half-close':
             # a client that stops READING for good (shutdown(SHUT_RD)) while the bus has, or gets, something to write to it,
             # and keeps its connection open: the bus cannot write and must neither spin nor stop serving; a client that
@@ -685,6 +724,7 @@ def build_tasks(tier):
     for i in range(0, len(ah), 6):
         tasks.append((task_activation_close, ah[i:i + 6]))
     tasks.append((task_scenarios, ('half-close',)))
+    tasks.append((task_scenarios, ('fd-abuse',)))
     tasks.append((task_scenarios, ('broadcast-refusal',)))
     tasks.append((task_scenarios, ('auth-backlog',)))
     tasks.append((task_scenarios, ('storm',)))
